@@ -48,7 +48,7 @@ def setup():
     return kani_engine.setup()
 
 
-def run_cicada(line=None, script=None, timeout=6, files=None, args=()):
+def run_cicada(line=None, script=None, timeout=6, files=None, args=(), stdin=None):
     """run `cicada -c line` (or a script file) in a fresh temp dir; returns dict."""
     b = build_binary()
     if not b:
@@ -64,11 +64,13 @@ def run_cicada(line=None, script=None, timeout=6, files=None, args=()):
             sp = os.path.join(d, 'w.sh')
             open(sp, 'w').write(script)
             cmd = [b, sp] + list(args)
+        elif line is None and stdin is not None:
+            cmd = [b]       # the text arrives on standard input of a shell without a terminal
         else:
             # {CICADA}: the binary under test itself (for lines that run a second shell with its own descriptors)
             cmd = [b, '-c', line.replace('{CICADA}', b)]
         try:
-            p = subprocess.run(cmd, cwd=d, env=env, capture_output=True, timeout=timeout, stdin=subprocess.DEVNULL)
+            p = subprocess.run(cmd, cwd=d, env=env, capture_output=True, timeout=timeout, **({'input': stdin.encode('utf-8')} if stdin is not None else {'stdin': subprocess.DEVNULL}))
             return {'rc': p.returncode, 'stdout': p.stdout.decode('utf-8', 'replace'),
                     'stderr': p.stderr.decode('utf-8', 'replace'), 'timeout': False,
                     'listing': sorted(os.listdir(d))}
@@ -91,7 +93,7 @@ def match_obligation(k, o):
 
 def observe(w):
     r = run_cicada(line=w.get('line'), script=w.get('script'), files=w.get('files'), timeout=w.get('timeout', 6),
-                   args=w.get('args', ()))
+                   args=w.get('args', ()), stdin=w.get('stdin'))
     return r
 
 
